@@ -59,6 +59,12 @@ class HippoLLSDXMLPrettyFormatter(base_llsd.serde_xml.LLSDXMLPrettyFormatter, Hi
         # See HippoLLSDXMLFormatter.xml_esc()
         return super().xml_esc(v).replace(b"\r", b"&#13;")
 
+    def _elt(self, name, contents=None):
+        # Unlike MAP(), PRETTY_MAP() hands over its keys as unescaped strs
+        if name == b'key' and isinstance(contents, str):
+            contents = self.xml_esc(contents)
+        return super()._elt(name, contents)
+
 
 def format_pretty_xml(val: typing.Any) -> bytes:
     return HippoLLSDXMLPrettyFormatter().format(val)
